@@ -269,6 +269,46 @@ pub fn run(a: &Args) -> i32 {
             }
         }
     }
+    // terminal family: stalemates / mates of king + one adjacent pawn (pinned pawns included), at
+    // remaining depths 0, 1 and 255
+    {
+        let ks: Vec<Sq> = if thorough { vec![0, 1, 8, 7, 6, 15, 56, 57, 48, 63, 62, 55] } else { vec![0, 7, 56, 63] };
+        let fam = terminal_family(&ks);
+        let mut n = 0u64;
+        for p in fam.iter() {
+            let is_mate = p.in_check(p.stm);
+            let mut b = build_board(p);
+            let turn = color_of(p.stm);
+            for d in [0u8, 1, 255] {
+                n += 1;
+                match guarded(|| evaluate::score(&mut b, &mut g, turn, d)) {
+                    Ok(s) => {
+                        if !is_mate && s != 0 {
+                            sink.push(v("stalemate-score-not-zero", p.to_fen(), format!("remaining depth {}: score {}", d, s), json!({"kind": "c18-terminal", "depth": d})));
+                            break;
+                        }
+                        if is_mate {
+                            let good = if p.stm == Side::White { -(s as i32) } else { s as i32 };
+                            if good < smallest_mate {
+                                sink.push(v("mate-score-not-above-static-range", p.to_fen(), format!("remaining depth {}: score {}", d, s), json!({"kind": "c18-terminal", "depth": d})));
+                                break;
+                            }
+                        }
+                    }
+                    Err(e) => {
+                        sink.push(v("terminal-score-panics", p.to_fen(), format!("remaining depth {}: {}", d, e), json!({"kind": "c18-terminal", "depth": d})));
+                        break;
+                    }
+                }
+            }
+            if g.cache_entry_count() > 60_000 {
+                g = MoveGenerator::new();
+            }
+        }
+        rep.add("terminal_family_positions", fam.len() as u64);
+        rep.add("terminal_family_stalemates", fam.iter().filter(|p| !p.in_check(p.stm)).count() as u64);
+        mate_evals += n;
+    }
     rep.add("mated_positions", mates.len() as u64);
     rep.add("stalemated_positions", stales.len() as u64);
     rep.add("terminal_score_evaluations", mate_evals);
